@@ -10,8 +10,8 @@
 use core::cmp::Ordering;
 
 use fpdec_core::{
-    checked_mul_pow_ten, i128_div_rounded, i128_shifted_div_rounded, ten_pow,
-    MAX_N_FRAC_DIGITS,
+    checked_mul_pow_ten, i128_div_mod_floor, i128_div_rounded,
+    i128_shifted_div_rounded, ten_pow, MAX_N_FRAC_DIGITS,
 };
 
 use crate::{Decimal, DecimalError};
@@ -91,11 +91,22 @@ pub(crate) fn checked_div_rounded(
             shift = divident_n_frac_digits - shift;
             // shift < divident_n_frac_digits => shift < 18 => ten_pow(shift)
             // is safe
-            Some(i128_div_rounded(
-                divident_coeff / divisor_coeff,
-                ten_pow(shift),
-                None,
-            ))
+            // To get the result rounded only once, a non-zero remainder of
+            // the first division has to be taken into account when rounding
+            // the second one.
+            let (quot, rem) =
+                i128_div_mod_floor(divident_coeff, divisor_coeff);
+            if rem == 0 {
+                Some(i128_div_rounded(quot, ten_pow(shift), None))
+            } else {
+                // rem != 0 => |divisor| >= 2 => |quot| < 2^126, so that
+                // 2 * quot + 1 can't overflow
+                Some(i128_div_rounded(
+                    2 * quot + 1,
+                    2 * ten_pow(shift),
+                    None,
+                ))
+            }
         }
     }
 }
